@@ -252,6 +252,11 @@ func loadPatchVariants(verif, prop string) []patchVariant {
 			}
 		}
 	}
+	// behaviour-preserving refactorings of this property's code: the check must stay silent
+	rfs, _ := filepath.Glob(filepath.Join(verif, "refactors", prop+"_*", "patch.diff"))
+	for _, f := range rfs {
+		out = append(out, patchVariant{Name: "refactor/" + filepath.Base(filepath.Dir(f)), Path: f, Expect: "silent"})
+	}
 	return out
 }
 
@@ -259,6 +264,9 @@ var patchFileRe = regexp.MustCompile(`(?m)^\+\+\+ b/(\S+)`)
 
 func runPatchVariant(self, prop, repo, verif, tmp string, idx int, pv patchVariant) variantResult {
 	res := variantResult{Name: pv.Name, Kind: "breaking", Expected: pv.Expect}
+	if pv.Expect == "silent" {
+		res.Kind = "refactor"
+	}
 	diff, err := os.ReadFile(pv.Path)
 	if err != nil {
 		res.Got, res.OK = "stale: patch missing", true
@@ -297,6 +305,12 @@ func runPatchVariant(self, prop, repo, verif, tmp string, idx int, pv patchVaria
 		res.Got = "checker error: " + firstLine(string(out))
 		// a mutant that no longer type-checks is not a verdict either way
 		res.OK = strings.Contains(string(out), "load/type error")
+	case pv.Expect == "silent":
+		res.Got = "silent"
+		res.OK = len(fired) == 0 && code == 0
+		if !res.OK {
+			res.Got = "fired: " + strings.Join(uniq(fired), ",")
+		}
 	case len(fired) > 0:
 		res.Got = "detected by " + strings.Join(uniq(fired), ",")
 		res.OK = true // detecting a mutant recorded as 'missed' is an improvement, not an error
